@@ -28,6 +28,7 @@ type caseWriter struct {
 	typ      string
 	cases    []string
 	desc     map[string]string
+	kinds    map[string]string // case id -> event constructor
 	dist     map[string]int
 	nextID   int
 	states   map[string]bool
@@ -35,7 +36,7 @@ type caseWriter struct {
 }
 
 func newCaseWriter(prefix, header, typ string) *caseWriter {
-	return &caseWriter{prefix: prefix, header: header, typ: typ, desc: map[string]string{}, dist: map[string]int{}, states: map[string]bool{}}
+	return &caseWriter{prefix: prefix, header: header, typ: typ, desc: map[string]string{}, kinds: map[string]string{}, dist: map[string]int{}, states: map[string]bool{}}
 }
 
 func (w *caseWriter) id(d string) int {
@@ -69,7 +70,7 @@ func (w *caseWriter) flush(out string, shard int, extra map[string]interface{}) 
 		}
 		samples = append(samples, c)
 	}
-	meta := map[string]interface{}{"cases": len(w.cases), "files": nfiles, "dist": w.dist, "desc": w.desc, "samples": samples,
+	meta := map[string]interface{}{"cases": len(w.cases), "files": nfiles, "dist": w.dist, "desc": w.desc, "kinds": w.kinds, "samples": samples,
 		"distinct_states": len(w.states), "findings": w.findings}
 	for k, v := range extra {
 		meta[k] = v
@@ -108,13 +109,13 @@ func coqOptions(r *Raft, order []uint64) string {
 
 func coqObs(resp response) string {
 	if resp == nil {
-		return "(mkObs 0 0 0)"
+		return "(mkObs 0 0 0 (mkOut [] []))"
 	}
 	last := uint64(0)
 	if ar, ok := resp.(*appendResp); ok {
 		last = ar.lastLogIndex
 	}
-	return fmt.Sprintf("(mkObs %d %d %d)", uint8(resp.getResult()), resp.getTerm(), last)
+	return fmt.Sprintf("(mkObs %d %d %d (mkOut [] []))", uint8(resp.getResult()), resp.getTerm(), last)
 }
 
 // ---- generator ----
@@ -197,7 +198,9 @@ func (g *node1Gen) emit(desc, ev string, pre string, res simResp) {
 		outk = fmt.Sprint(uint8(res.resp.getResult()))
 	}
 	g.w.dist[kind+"/"+outk]++
-	g.w.cases = append(g.w.cases, fmt.Sprintf("NCase %d %s %s %s %s", g.w.id(desc), coqOptions(g.n.r, nil), pre, ev, out))
+	cid := g.w.id(desc)
+	g.w.kinds[strconv.Itoa(cid)] = kind
+	g.w.cases = append(g.w.cases, fmt.Sprintf("NCase %d %s %s %s %s", cid, coqOptions(g.n.r, nil), pre, ev, out))
 }
 
 func (g *node1Gen) restart(emit bool) error {
